@@ -8,7 +8,7 @@ import (
 
 // ---- good lifecycle: D1 D2 D3 D4 D5 D6 all hold -----------------------------------------------------------------
 
-type GoodLife struct {
+type GoodDLife struct {
 	interceptor.NoOp
 	m       sync.Mutex
 	wg      sync.WaitGroup
@@ -17,7 +17,7 @@ type GoodLife struct {
 	streams sync.Map
 }
 
-func (g *GoodLife) isClosed() bool {
+func (g *GoodDLife) isClosed() bool {
 	select {
 	case <-g.close:
 		return true
@@ -26,7 +26,7 @@ func (g *GoodLife) isClosed() bool {
 	}
 }
 
-func (g *GoodLife) BindRTCPWriter(w interceptor.RTCPWriter) interceptor.RTCPWriter {
+func (g *GoodDLife) BindRTCPWriter(w interceptor.RTCPWriter) interceptor.RTCPWriter {
 	g.m.Lock()
 	defer g.m.Unlock()
 	if g.isClosed() {
@@ -37,7 +37,7 @@ func (g *GoodLife) BindRTCPWriter(w interceptor.RTCPWriter) interceptor.RTCPWrit
 	return w
 }
 
-func (g *GoodLife) loop(w interceptor.RTCPWriter) {
+func (g *GoodDLife) loop(w interceptor.RTCPWriter) {
 	defer g.wg.Done()
 	for {
 		select {
@@ -48,7 +48,7 @@ func (g *GoodLife) loop(w interceptor.RTCPWriter) {
 	}
 }
 
-func (g *GoodLife) BindRemoteStream(info *interceptor.StreamInfo, r interceptor.RTPReader) interceptor.RTPReader {
+func (g *GoodDLife) BindRemoteStream(info *interceptor.StreamInfo, r interceptor.RTPReader) interceptor.RTPReader {
 	g.streams.Store(info.SSRC, &innerT{})
 	select {
 	case g.work <- 1:
@@ -57,9 +57,9 @@ func (g *GoodLife) BindRemoteStream(info *interceptor.StreamInfo, r interceptor.
 	return r
 }
 
-func (g *GoodLife) UnbindRemoteStream(info *interceptor.StreamInfo) { g.streams.Delete(info.SSRC) }
+func (g *GoodDLife) UnbindRemoteStream(info *interceptor.StreamInfo) { g.streams.Delete(info.SSRC) }
 
-func (g *GoodLife) Close() error {
+func (g *GoodDLife) Close() error {
 	defer g.wg.Wait()
 	g.m.Lock()
 	defer g.m.Unlock()
